@@ -192,6 +192,7 @@ def lonely(kind):
 
 
 TEMPLATES = {
+    'se2huge': lambda s: make('SE2', s, n_poses=150, n_landmarks=10, closures=40),
     'se2big': lambda s: make('SE2', s, n_poses=24, n_landmarks=4, closures=8),
     'se3big': lambda s: make('SE3', s, n_poses=16, n_landmarks=3, closures=5),
     'r2lonely': lonely('R2'),
